@@ -230,7 +230,19 @@ func (g *Gen) selectionSet(typ *ast.Definition, depth int, isRoot bool) string {
 			if g.budget <= 0 {
 				continue
 			}
-			f := fields[rapid.IntRange(0, len(fields)-1).Draw(g.t, "field")]
+			pool := fields
+			if depth < g.Opt.MaxDepth && rapid.Bool().Draw(g.t, "composite?") {
+				var comp []*ast.FieldDefinition
+				for _, f := range fields {
+					if isComposite(g.Schema.Types[f.Type.Name()]) {
+						comp = append(comp, f)
+					}
+				}
+				if len(comp) > 0 {
+					pool = comp
+				}
+			}
+			f := pool[rapid.IntRange(0, len(pool)-1).Draw(g.t, "field")]
 			if s := g.field(typ, f, depth); s != "" {
 				parts = append(parts, s)
 			}
